@@ -47,8 +47,8 @@ class Ctx:
     def has_var(self, name, state=None):
         return name in (state or self.cur).env
 
-    def setdef(self, pred, prefix='S'):
-        return L.setdef(self.defs, pred, prefix)
+    def setdef(self, pred, prefix='S', triggers=None):
+        return L.setdef(self.defs, pred, prefix, triggers)
 
     def memo(self, key, mk):
         if key not in self.cache:
@@ -179,11 +179,12 @@ class Contract:
         return self
 
     def loop(self, ordinal, inv, hints=None, modifies=None, props=None, variant=None, var_kinds=None,
-             est_hints=None, forget=False):
+             est_hints=None, forget=False, clause_hints=None):
         self.loops[ordinal] = LoopSpec(inv, hints, modifies, props, variant)
         self.loops[ordinal].var_kinds = var_kinds
         self.loops[ordinal].est_hints = est_hints
         self.loops[ordinal].forget = forget
+        self.loops[ordinal].clause_hints = clause_hints
         return self
 
     def for_props(self, *ps):
